@@ -138,6 +138,12 @@ def g_bools(bs):
 
 
 def case_term(case, res):
+    if case.get("k") == "uf":
+        return uf_term(case, res)
+    return lat_case_term(case, res)
+
+
+def lat_case_term(case, res):
     """Gallina term of type N (bit0 model mismatch, bit1 property fails on the implementation)"""
     if "atoms" not in res:
         return 3  # panic / hang / crash: the model never panics on a well-formed value
@@ -152,6 +158,9 @@ def case_term(case, res):
 
 
 def shrink(case):
+    if case.get("k") == "uf":
+        yield from shrink_uf(case)
+        return
     t = lat.parse_type(case["ty"])
     for f in ("acc", "a"):
         for sv in lat.shrink_value(t, case[f]):
@@ -177,6 +186,15 @@ def distribution(cases, results):
             continue
         k = str(min(len(r["atoms"]), 12))
         d["atoms_hist"][k] = d["atoms_hist"].get(k, 0) + 1
+        if c.get("k") == "uf":
+            d["uf_cases"] = d.get("uf_cases", 0) + 1
+            if r["bot"]:
+                d["a_bottom"] += 1
+                if c["a"]:
+                    d["a_bottom_not_default"] += 1
+            if c["a"] == c["acc"]:
+                d["acc_equals_a"] += 1
+            continue
         t = lat.parse_type(c["ty"])
         if r["bot"]:
             d["a_bottom"] += 1
@@ -189,3 +207,73 @@ def distribution(cases, results):
         if c["a"] == c["acc"]:
             d["acc_equals_a"] += 1
     return d
+
+
+# ------------------------------------------------------------------ union-find
+UF_U = 8
+
+
+def gen_forest(rng, u=UF_U):
+    """a well-formed parent map: distinct keys, every parent <= its key (so no cycles)"""
+    n = rng.below(u + 1)
+    keys = sorted(rng.sample(list(range(u)), n))
+    out = []
+    for k in keys:
+        r = rng.below(4)
+        if r == 0 or k == 0:
+            p = k
+        elif r == 1 and out:
+            p = rng.choice(out)[0]      # another key (keys so far are smaller)
+        else:
+            p = rng.below(k)            # any smaller item, possibly without an entry
+        out.append([k, p])
+    return out
+
+
+def gen_uf_cases(rng, tier, n):
+    cases = []
+    for i in range(n):
+        r = rng.below(10)
+        if r == 0:
+            a = [[k, k] for k in sorted(rng.sample(list(range(UF_U)), rng.below(4)))]   # bottom, not Default
+        else:
+            a = gen_forest(rng)
+        r = rng.below(3)
+        acc = json.loads(json.dumps(a)) if r == 0 else gen_forest(rng)
+        cases.append({"k": "uf", "rep": "hash" if i % 2 == 0 else "btree", "u": UF_U, "a": a, "acc": acc,
+                      "ty": "UnionFind", "src": "rnd"})
+    return cases
+
+
+def g_pairs(ps):
+    return "[" + "; ".join("(%d, %d)" % (k, p) for k, p in ps) + "]"
+
+
+def g_nums(ns):
+    return "[" + "; ".join("%d" % x for x in ns) + "]"
+
+
+def uf_term(case, res):
+    if "atoms" not in res:
+        return 3
+    obs = "(Build_ufobs %s %s %s %s %s %s %s %s %s %s)" % (
+        g_pairs(res["atoms"]), g_bools(res["atom_bot"]), g_bool(res["bot"]), g_bools(res["changed"]),
+        g_nums(res["reformed"]), g_nums(res["orig"]), g_bool(res["eq"]),
+        g_nums(res["acc_atoms"]), g_nums(res["acc_a"]), g_bool(res["acc_eq"]))
+    return "(ufchk %d%%nat %s %s %s)" % (case["u"], g_pairs(case["a"]), g_pairs(case["acc"]), obs)
+
+
+def shrink_uf(case):
+    for f in ("acc", "a"):
+        ps = case[f]
+        for i in range(len(ps)):
+            c2 = dict(case)
+            c2[f] = ps[:i] + ps[i + 1:]
+            c2["src"] = "shrunk"
+            yield c2
+        for i, (k, p) in enumerate(ps):
+            if p != k:
+                c2 = dict(case)
+                c2[f] = ps[:i] + [[k, k]] + ps[i + 1:]
+                c2["src"] = "shrunk"
+                yield c2
